@@ -187,6 +187,15 @@ def _check_reserved(ctx, kind, p, rm, case, origin):
                 ctx.check("msg.getters", ok3 and e is True, "parameter_object_not_equal_to_original", f"{kind}/{origin}", case, observed=repr(e))
                 if kind == "originating_id":
                     ctx.check("msg.getters", hash(v) == hash(orig) and {orig: 1}.get(v) == 1, "transaction_id_hash_differs", origin, case)
+                    # the same numbers carried in other widths: whatever equality says about the pair, the hash agrees with it
+                    from spacepackets.cfdp.defs import TransactionId
+                    bf = C.lib().ByteFieldGenerator.from_int
+                    for w1 in C.WIDTHS:
+                        for w2 in C.WIDTHS:
+                            if p["src"][1] < 1 << 8 * w1 and p["seq"][1] < 1 << 8 * w2 and (w1, w2) != (p["src"][0], p["seq"][0]):
+                                twin = TransactionId(bf(w1, p["src"][1]), bf(w2, p["seq"][1]))
+                                ok5, e5 = attempt(lambda: (v == twin, twin == v, hash(v) == hash(twin)))
+                                ctx.check("msg.getters", ok5 and e5[0] == e5[1] and (not e5[0] or e5[2]), "equal_transaction_ids_hash_differently", origin, case, observed=repr(e5), widths=[w1, w2])
             # hostile caller: the parameter object that was handed out is overwritten (it is the caller's now); the next decode of the
             # same octets - k_msg decodes every message twice - must hand out the parameters in the octets again
             _scribble_params(ctx, v)
